@@ -489,6 +489,8 @@ class Ev:
   def e_Call(self, n):
     f = ast.unparse(n.func)
     w = self.where(n)
+    if f in self.env and callable(self.env[f]):   # a call replaced by a declared input (unit stubs)
+      return self.env[f](self, n)
     if f in UNARY:
       self.kw(n, set())
       a = as_T(self.expr(n.args[0]), w)
@@ -516,7 +518,22 @@ class Ev:
       if len(a.idx) == 2 and len(b.idx) == 2 and a.idx[1] == b.idx[0] and a.idx[1] in self.sizes:
         k = a.idx[1]
         return T(("sum", k, self.sizes[k], ("bin", "*", a.node, b.node)), (a.idx[0], b.idx[1]))
+      if len(a.idx) == 2 and len(b.idx) == 1 and a.idx[1] in self.sizes:
+        k = a.idx[1]
+        bn = ir.subst_ix(b.node, b.idx[0], ir.ix(k)) if b.idx[0] != k else b.node
+        return T(("sum", k, self.sizes[k], ("bin", "*", a.node, bn)), (a.idx[0],))
       raise TranslationError(f"{w}: numpy.dot of {a.idx} and {b.idx}")
+    if f == "numpy.einsum":
+      self.kw(n, set())
+      spec = ast.literal_eval(n.args[0]).replace(" ", "")
+      if spec != "ijk,j":
+        raise TranslationError(f"{w}: einsum pattern {spec!r} not in the table")
+      a, b = as_T(self.expr(n.args[1]), w), as_T(self.expr(n.args[2]), w)
+      if len(a.idx) != 3 or len(b.idx) != 1 or a.idx[1] not in self.sizes:
+        raise TranslationError(f"{w}: einsum 'ijk, j' on {a.idx} and {b.idx}")
+      k = a.idx[1]
+      bn = ir.subst_ix(b.node, b.idx[0], ir.ix(k)) if b.idx[0] != k else b.node
+      return T(("sum", k, self.sizes[k], ("bin", "*", a.node, bn)), (a.idx[0], a.idx[2]))
     if f == "numpy.copy":
       return self.expr(n.args[0])
     if f == "numpy.array" and len(n.args) == 1 and isinstance(n.args[0], ast.Constant) and not n.keywords:
